@@ -114,7 +114,27 @@ def regression_scenarios():
                                                                                     'cond': {'type': 'period', 'period': 1, 'offset': 0}}}],
                                                            [{'when': None, 'act': {'kind': 'real_report', 'cond': {'type': 'first'}}}]] + rec_cb}])
     return [('known-F7-closure-novalid', f7, True), ('forced-tie', tie, True), ('real-SetLossFn-SetOptimizer', real, True),
-            ('real-MonitorCallback', mon, True)]
+            ('real-MonitorCallback', mon, True)] + tiny_improvement_scenarios(base, rec_cb)
+
+
+def tiny_improvement_scenarios(base, rec_cb):
+    """a user loss returning SCRIPTED float64 values: new strict minima lower by 1 ulp, 1e-14, 1e-12, 1e-9, 5e-8, 1e-7, 1e-5
+    relative (with set-backs in between): the running minimum is exact, not approximate.  Oracle only."""
+    import math
+    out = []
+    for start, nbv in ((1000.0, 1), (-3.0, 1), (0.75, 0)):
+        vals, v = [], start
+        for rel in (None, 1e-5, 'up', 1e-7, 5e-8, 'up', 1e-9, 1e-12, 'up', 1e-14, None, None, 'up', None):
+            if rel == 'up':
+                vals.append(v + abs(v) * 1e-3)
+                continue
+            v = math.nextafter(v, -math.inf) if rel is None else min(math.nextafter(v, -math.inf), v - abs(v) * rel)
+            vals.append(v)
+        script = [x for val in vals for x in ((val, val) if nbv else (val,))]       # train call, then valid call, per epoch
+        sc = dict(base, nbv=nbv, lid=5, loss_script=script, opt={'kind': 'sgd', 'lr': 0.25},
+                  ops=[{'op': 'fit', 'max_epochs': len(vals) // 2, 'cbs': rec_cb}, {'op': 'fit', 'max_epochs': len(vals) - len(vals) // 2, 'cbs': rec_cb}])
+        out.append((f'tiny-improvements-{start}-nbv{nbv}', sc, None))
+    return out
 
 
 def main():
@@ -139,7 +159,10 @@ def main():
             camp.add('replay', sc, coq=False)
         ck.finish()
     for label, sc, exact in regression_scenarios():
-        camp.add(label, sc, exact)
+        if exact is None:
+            camp.add(label, sc, coq=False)          # scripted loss values: not expressible in the toy model, oracle only
+        else:
+            camp.add(label, sc, exact)
     r = ck.rng('scenarios')
     n = 1200 if ck.thorough() else 80
     ties = 0
